@@ -34,6 +34,17 @@ CHECKS.update({
             "Coq proof (model = spec, all inputs; finite sweep by vm_compute for the 17-bit kernel) + correspondence + oracle", "§3 C15"),
 })
 
+CHECKS.update({
+    "C18": ("proof", "unbounded theorem: the macro's and from_str's exponent foldings agree for every i128 coefficient and isize exponent, "
+            "and Dec!(s) = from_str(s) on the model for every string; the compile-time half (rustc lexer, TokenStream::to_string, const "
+            "evaluation) is exploration over generated Dec!(lit) programs compiled by rustc and compared with from_str of the implementation (partial, DESIGN §3 C18)",
+            "Coq proof (fold agreement) + generated-program compile probe vs implementation from_str + model correspondence", "§3 C18"),
+    "C19": ("proof", "unbounded theorem over all histories (any number of threads, any interleaving): each thread's observations equal those of "
+            "its own events run alone from RoundHalfEven (INITIAL_MODE read from the source); that thread_local! gives one cell per OS thread is "
+            "runtime behaviour exhibited by forced-interleaving and free-running histories on real threads, one fresh process per history (partial)",
+            "Coq proof (per-thread projection, induction over histories) + real-thread history execution vs extracted model", "§3 C19"),
+})
+
 NOT_YET = {}
 
 def main():
